@@ -29,10 +29,26 @@ def c07_r2(ctx):
     ctx.ob(dd, A.has(sts, "segment, segdocnum = self._segment_and_docnum(docnum)") and A.has(sts, "segment.delete_document(segdocnum, delete=delete)"),
            "delete_document marks the segment-local number on the owning segment")
     sd = prog.method("writing.SegmentWriter", "_segment_and_docnum", inherited=False)
-    rets = [norm.inline_defs(r.value, sd.node) for r in returns_of(sd) if r.value is not None]
-    B = pm.Alpha(sd)
-    ctx.ob(sd, len(rets) == 1 and B.eq(rets[0], "(self.segments[self._document_segment(docnum)], docnum - self._doc_offsets[self._document_segment(docnum)])"),
-           "the segment and the offset are taken at the same index", detail=str([norm.canon(r) for r in rets]))
+    # (segment, local docnum) = (self.segments[I], docnum - self._doc_offsets[I]) with one and the same index I
+    sal = norm.aliases(sd.node)
+    rets = [norm.substitute(r.value, sal) for r in returns_of(sd) if r.value is not None]
+    ok = False
+    if len(rets) == 1:
+        rv = rets[0]
+        d = norm.definitions(sd.node)
+
+        def expand(e):
+            if isinstance(e, ast.Name) and e.id in d and e.id not in sd.params:
+                return norm.substitute(d[e.id], sal)
+            return e
+        if isinstance(rv, ast.Tuple) and len(rv.elts) == 2:
+            e0, e1 = expand(rv.elts[0]), expand(rv.elts[1])
+            if isinstance(e1, ast.BinOp) and isinstance(e1.op, ast.Sub):
+                e1 = ast.BinOp(left=e1.left, op=e1.op, right=expand(e1.right))
+            if isinstance(e0, ast.Subscript) and norm.canon(e0.value) == "self.segments" and isinstance(e1, ast.BinOp) and isinstance(e1.op, ast.Sub) \
+                    and norm.canon(e1.left) == sd.params[1] and isinstance(e1.right, ast.Subscript) and norm.canon(e1.right.value) == "self._doc_offsets":
+                ok = norm.canon(e0.slice) == norm.canon(e1.right.slice)
+    ctx.ob(sd, ok, "the segment and the offset are taken at the same index", detail=str([norm.canon(r) for r in rets]))
     init = prog.method("writing.SegmentWriter", "__init__", inherited=False)
     segs = [norm.deep_canon(st.value, init.node) for st in ast.walk(init.node) if isinstance(st, ast.Assign) and norm.canon(st.targets[0]) == "self.segments"]
     ctx.ob(init, segs == ["ix._read_toc().segments"], "self.segments are the objects unpickled by this writer's own TOC read", detail=str(segs))
@@ -144,11 +160,21 @@ def c07_r4(ctx):
     if len(loops) == 1:
         lp = loops[0]
         # the searcher iterated is the caller's or self.searcher()
-        svals = [norm.canon(v) if v is not None else "?" for v in norm.assigned_names(f.node).get(norm.canon(norm.receiver(lp.iter)) if isinstance(lp.iter, ast.Call) else "", [])]
+        dq = [c for c in norm.calls_in(f.node) if norm.call_name(c) == "docs_for_query"]
+        svals = [norm.canon(v) if v is not None else "?" for v in norm.assigned_names(f.node).get(norm.canon(norm.receiver(dq[0])) if len(dq) == 1 else "", [])]
         dels = [st for st in lp.body if A.eq(st, "self.delete_document(docnum)")] if A.eq(lp.target, "docnum") else []
         incs = [st for st in ast.walk(f.node) if isinstance(st, ast.AugAssign)]
-        ok = A.eq(lp.iter, "s.docs_for_query(q, for_deletion=True)") and len(dels) == 1 and \
-            len(incs) == 1 and incs[0] in lp.body and A.eq(incs[0], "count += 1") and \
+        enum_form = False
+        if isinstance(lp.iter, ast.Call) and norm.call_name(lp.iter) == "enumerate" and isinstance(lp.target, ast.Tuple) and len(lp.target.elts) == 2:
+            # for count, docnum in enumerate(<docs>, 1): delete_document(docnum)   (count holds the number of iterations)
+            src = norm.inline_defs(lp.iter.args[0], f.node) if lp.iter.args else None
+            start1 = (len(lp.iter.args) == 2 and norm.canon(lp.iter.args[1]) == "1") or any(k.arg == "start" and norm.canon(k.value) == "1" for k in lp.iter.keywords)
+            A.eq(lp.target.elts[0], "count")
+            A.eq(lp.target.elts[1], "docnum")
+            dels = [st for st in lp.body if A.eq(st, "self.delete_document(docnum)")]
+            enum_form = src is not None and A.eq(src, "s.docs_for_query(q, for_deletion=True)") and start1 and len(dels) == 1 and not incs
+        ok = (enum_form or (A.eq(lp.iter, "s.docs_for_query(q, for_deletion=True)") and len(dels) == 1 and
+                            len(incs) == 1 and incs[0] in lp.body and A.eq(incs[0], "count += 1"))) and \
             not any(isinstance(x, (ast.Continue, ast.Break, ast.Return)) for x in ast.walk(lp)) and \
             A.has(pm.stmts_of(f.node), "count = 0") and sorted(svals) == ["searcher", "self.searcher()"]
     rets = [r.value for r in returns_of(f)]
